@@ -835,7 +835,8 @@ impl Store {
 
             let allow = allow_scraping
                 || filter.limit() <= allow_scrape_if_limited_to
-                || *(maxtime - filter.since()).as_ref() < allow_scrape_if_max_seconds;
+                || maxtime.as_u64().saturating_sub(filter.since().as_u64())
+                    < allow_scrape_if_max_seconds;
             if !allow {
                 return Err(InnerError::Scraper.into());
             }
